@@ -36,6 +36,35 @@ Theorem c06_unknown_members_irrelevant : forall e k name s d fs tes rest rest',
       (put_head 5 (blen (without_unknown tes)) ++ List.concat (map enc_txt_entry (without_unknown tes)) ++ rest')%list = Ok (v, rest').
 Proof. exact dec_text_struct_unknown_irrelevant. Qed.
 
+(* NESTING.  The record an enclosing map decodes to depends only on the VALUES its entries decode to, not on
+   how each value is encoded: replacing a nested dictionary by the same dictionary with unknown members added
+   anywhere inside it (same decoded value, by c06_unknown_members_irrelevant) leaves the enclosing request -
+   integer-keyed parameter map or text-keyed dictionary, at any depth - unchanged *)
+Theorem c06_enclosing_parameter_map_unchanged : forall e k name s d fs entries entries' rest rest',
+  lookup e name = Some (DStruct true s d fs) ->
+  Forall (idx_entry_ok (dec e k) fs) entries -> Forall (idx_entry_ok (dec e k) fs) entries' ->
+  map en_fd entries = map en_fd entries' -> map en_val entries = map en_val entries' ->
+  NoDup (map en_label entries) ->
+  (forall fd, In fd fs -> f_opt fd = false -> In (f_label fd) (map en_label entries)) ->
+  blen entries < 4294967296 ->
+  exists v,
+    dec e (S k) (TNamed name) (put_head 5 (blen entries) ++ List.concat (map enc_idx_entry entries) ++ rest)%list = Ok (v, rest) /\
+    dec e (S k) (TNamed name) (put_head 5 (blen entries') ++ List.concat (map enc_idx_entry entries') ++ rest')%list = Ok (v, rest').
+Proof. exact dec_indexed_congruence. Qed.
+
+Theorem c06_enclosing_dictionary_unchanged : forall e k name s d fs tes tes' rest rest',
+  lookup e name = Some (DStruct false s d fs) ->
+  Forall (txt_entry_ok (dec e k) fs) tes -> Forall (txt_entry_ok (dec e k) fs) tes' ->
+  map en_fd (known_entries tes) = map en_fd (known_entries tes') ->
+  map en_val (known_entries tes) = map en_val (known_entries tes') ->
+  NoDup (map en_label (known_entries tes)) ->
+  (forall fd, In fd fs -> f_opt fd = false -> In (f_label fd) (map en_label (known_entries tes))) ->
+  blen tes < 4294967296 -> blen tes' < 4294967296 ->
+  exists v,
+    dec e (S k) (TNamed name) (put_head 5 (blen tes) ++ List.concat (map enc_txt_entry tes) ++ rest)%list = Ok (v, rest) /\
+    dec e (S k) (TNamed name) (put_head 5 (blen tes') ++ List.concat (map enc_txt_entry tes') ++ rest')%list = Ok (v, rest').
+Proof. exact dec_text_congruence. Qed.
+
 (* the host map types the specification lets platforms extend are text-keyed structs in every
    feature configuration (so c06_unknown_member_step applies to them) *)
 Definition extensible_hosts : list string :=
@@ -68,3 +97,5 @@ Eval vm_compute in "ASSUMPTIONS c06_unknown_members_irrelevant". Print Assumptio
 Eval vm_compute in "ASSUMPTIONS c06_hosts_are_text_keyed". Print Assumptions c06_hosts_are_text_keyed.
 Eval vm_compute in "ASSUMPTIONS c06_generated_conforms". Print Assumptions c06_generated_conforms.
 Eval vm_compute in "ASSUMPTIONS c06_modelled_functions_unchanged_request". Print Assumptions c06_modelled_functions_unchanged_request.
+Eval vm_compute in "ASSUMPTIONS c06_enclosing_parameter_map_unchanged". Print Assumptions c06_enclosing_parameter_map_unchanged.
+Eval vm_compute in "ASSUMPTIONS c06_enclosing_dictionary_unchanged". Print Assumptions c06_enclosing_dictionary_unchanged.
